@@ -103,6 +103,7 @@ void sx_on_quiescent(void)
 	int i;
 
 	sx_cover("raw.quiescent");
+	sx_leak_check_unreachable();	/* C18: nothing the library allocated has been lost track of */
 	sx_assert(posters_done == nT, "C09.poster-blocked");
 	for (i = 0; i < nR; i++) {
 		if (!R[i].registered)
